@@ -244,6 +244,34 @@ impl<K: Key, Ty: EdgeType + Clone + Send + Sync + 'static, S: BuildHasher + Clon
     fn check(&self, s: &Self::S) -> Result<(), StepErr> {
         self.battery(s)
     }
+    fn has_check_new(&self) -> bool {
+        true
+    }
+    /// iterator protocol (size_hint / count / last / nth / next_back) of every iterator GraphMap hands out
+    fn check_new(&self, s: &Self::S) -> Result<(), StepErr> {
+        use petgraph::visit::{IntoEdgeReferences, IntoNodeIdentifiers, IntoNodeReferences};
+        use vh::{iter_protocol, iter_protocol_de, iter_protocol_exact};
+        let g = &s.g;
+        iter_protocol_de!("nodes", g.nodes(), |k: K| k.un())?;
+        iter_protocol_exact!("nodes", g.nodes())?;
+        iter_protocol_de!("all_edges", g.all_edges(), |(a, b, w): (K, K, &u8)| (a.un(), b.un(), *w))?;
+        iter_protocol!("node_identifiers", g.node_identifiers(), |k: K| k.un())?;
+        iter_protocol!("node_references", g.node_references(), |(k, _): (K, &K)| k.un())?;
+        iter_protocol!("edge_references", g.edge_references(), |(a, b, w): (K, K, &u8)| (a.un(), b.un(), *w))?;
+        {
+            let mut c = g.clone();
+            iter_protocol_de!("all_edges_mut", c.all_edges_mut(), |(a, b, w): (K, K, &mut u8)| (a.un(), b.un(), *w))?;
+        }
+        for a in 0..=self.keys {
+            iter_protocol!("neighbors", g.neighbors(K::mk(a)), |k: K| k.un())?;
+            iter_protocol!("edges", g.edges(K::mk(a)), |(a, b, w): (K, K, &u8)| (a.un(), b.un(), *w))?;
+            for dir in [Outgoing, Incoming] {
+                iter_protocol!("neighbors_directed", g.neighbors_directed(K::mk(a), dir), |k: K| k.un())?;
+                iter_protocol!("edges_directed", g.edges_directed(K::mk(a), dir), |(a, b, w): (K, K, &u8)| (a.un(), b.un(), *w))?;
+            }
+        }
+        Ok(())
+    }
     fn ops(&self, s: &Self::S) -> Vec<Op> {
         let m = &s.m;
         let mut v = vec![];
